@@ -11,7 +11,7 @@ func init() {
 		Assume: []string{"the 'no data race / unsynchronised map access' clause cannot be seen by a simulator that runs one task at a time (every hand-over is a happens-before edge); it is covered by a supplement that is runtime monitoring, not simulation, reported separately under coverage.race_supplement: concurrent request mixes on real goroutines in a go build -race binary; a report is a true race, silence proves nothing", "perturbed writes are aimed at scratch tables/buckets only; names with '..' segments or a leading '/' are never sent (neither file-backed store confines paths)"},
 		Run:    runC20,
 	})
-	expectedProbes["C20"] = []string{"c20.byte_level", "c20.bt_error_status", "c20.gcs_error_status", "c20.batch", "c20.table_delete_create_race", "c20.schema_change_race", "c20.drop_during_scan", "c20.list_during_delete", "c20.concurrent_chunks", "c20.request_cancelled", "c20.gc_after_perturbed_schema", "c20.opposing_copies", "c20.multi_message_scan_in_mix"}
+	expectedProbes["C20"] = []string{"c20.byte_level", "c20.bt_error_status", "c20.gcs_error_status", "c20.batch", "c20.table_delete_create_race", "c20.schema_change_race", "c20.drop_during_scan", "c20.list_during_delete", "c20.concurrent_chunks", "c20.request_cancelled", "c20.gc_after_perturbed_schema", "c20.opposing_copies", "c20.multi_message_scan_in_mix", "c20.table_larger_than_write_buffer"}
 }
 
 func runC20(r *Run) {
@@ -19,6 +19,8 @@ func runC20(r *Run) {
 	mode := cfg.Weighted([]int{4, 3, 4, 2})
 	if r.Index < 16 {
 		mode = r.Index % 4
+	} else if r.Index < 24 {
+		mode = 1 // the eight mixes over a table larger than the engine's write buffer
 	}
 	switch mode {
 	case 0:
